@@ -120,7 +120,74 @@ def s3_refetch(inner):
     return reopen_s3_cassette(inner, read_only=True)
 
 
-CASSETTES = {'memory': (mem_cassette, None), 'file': (file_cassette, file_refetch), 's3': (s3_cassette, s3_refetch)}
+class _AsyncComposite(object):
+    """Recording goes through the real AsyncRecordOnlyTapeCassette (real flusher thread) in front of an in-memory
+    cassette; reads go to the wrapped cassette after the wrapper has been closed (public API only: close() joins the
+    flusher after its last flush) and a fresh wrapper started.  What the recorder-level specification says about the
+    store must therefore hold for the composition 'recorder -> asynchronous wrapper -> storage' as well."""
+
+    def __init__(self):
+        from playback.tape_cassettes.in_memory.in_memory_tape_cassette import InMemoryTapeCassette
+        self.store = InMemoryTapeCassette()
+        self.wrapper = None
+        self._fresh()
+
+    def _fresh(self):
+        from playback.tape_cassettes.asynchronous.async_record_only_tape_cassette import AsyncRecordOnlyTapeCassette
+        self.wrapper = AsyncRecordOnlyTapeCassette(self.store, flush_interval=0.0005, timeout_on_close=30)
+        self.wrapper.start()
+
+    def _drain(self):
+        self.wrapper.close()
+        self._fresh()
+
+    def create_new_recording(self, category):
+        return self.wrapper.create_new_recording(category)
+
+    def save_recording(self, recording):
+        try:
+            return self.wrapper.save_recording(recording)
+        finally:
+            self._drain()
+
+    def _save_recording(self, recording):
+        return self.wrapper._save_recording(recording)
+
+    def abort_recording(self, recording=None):
+        try:
+            return self.wrapper.abort_recording(recording)
+        finally:
+            self._drain()
+
+    def get_recording(self, recording_id):
+        self._drain()
+        return self.store.get_recording(recording_id)
+
+    def get_recording_metadata(self, recording_id):
+        self._drain()
+        return self.store.get_recording_metadata(recording_id)
+
+    def iter_recording_ids(self, *a, **kw):
+        self._drain()
+        return self.store.iter_recording_ids(*a, **kw)
+
+    def iter_recordings_metadata(self, *a, **kw):
+        self._drain()
+        return self.store.iter_recordings_metadata(*a, **kw)
+
+    def extract_recording_category(self, recording_id):
+        return self.store.extract_recording_category(recording_id)
+
+    def close(self):
+        self.wrapper.close()
+
+
+def async_cassette():
+    return _AsyncComposite()
+
+
+CASSETTES = {'memory': (mem_cassette, None), 'file': (file_cassette, file_refetch), 's3': (s3_cassette, s3_refetch),
+             'async': (async_cassette, None)}
 
 
 # ------------------------------------------------------------------------------------------------------------------
